@@ -34,6 +34,7 @@ FOUR = (Type.ENDOGENOUS, Type.EXOGENOUS, Type.PARAMETER, Type.ERROR)
 class Mis(Exception):
     def __init__(self, key, **detail):
         self.key, self.detail = key, detail
+        self.more = []      # further, independent mismatches of the same record (each is reported under its own key)
 
 
 def approx(a, b):
@@ -485,6 +486,36 @@ def check_c04(rec, names, Model, seed):
                                       t=t, L=L, lags=lags, leads=leads, status=str(m.status[p]), changed=sorted(map(str, changed)))
                         if changed:
                             raise Mis('c04-rejected-call-changed-state', t=t, L=L, changed=sorted(map(str, changed)))
+            # calls rejected up front (min_iter > max_iter; a non-finite check value under errors='raise') change nothing at
+            # all - on a fresh period and on one that carries the stamps of an earlier solve
+            if feasible and endo:
+                for prior in (False, True):
+                    for why in ('minmax', 'nonfinite'):
+                        m = Model(span)
+                        table = data_table(all_names, L, 2, seed + p)
+                        for nm in all_names:
+                            m.__dict__['_' + nm][:] = table[nm]
+                        if prior:
+                            m.__dict__['_status'][:] = '.'
+                            m.__dict__['_iterations'][:] = 7
+                        if why == 'nonfinite':
+                            m.__dict__['_' + list(Model.CHECK)[0]][p] = np.nan
+                        before = {k_: m.__dict__['_' + k_].copy() for k_ in m.__dict__['index']}
+                        kw = dict(min_iter=3, max_iter=2) if why == 'minmax' else dict(max_iter=2, errors='raise')
+                        try:
+                            with warnings.catch_warnings():
+                                warnings.simplefilter('ignore')
+                                m.solve_t(p, **kw)
+                            raised = None
+                        except Exception as e:
+                            raised = type(e).__name__
+                        n += 1
+                        want = 'ValueError' if why == 'minmax' else 'SolutionError'
+                        if raised != want:
+                            raise Mis(f'c04-call-not-rejected:{why}', t=p, L=L, outcome=str(raised))
+                        changed = sorted(k_ for k_ in before if not np.array_equal(before[k_], m.__dict__['_' + k_], equal_nan=(before[k_].dtype.kind == 'f')))
+                        if changed:
+                            raise Mis('c04-rejected-call-changed-state', t=p, L=L, why=why, prior_stamps=prior, changed=changed)
             # every read while evaluating a feasible period addresses exactly t-lag / t+lead inside the span
             if feasible:
                 for t in (p, p - L):
@@ -624,6 +655,20 @@ def check_c14(rec, names, symbols, layouts, seed):
         n += 1
     if list(merged.values()) + tail != list(symbols):
         raise Mis('c14-script-is-not-merge-of-statements', got=[tuple(s) for s in list(merged.values()) + tail][:6])
+    # a statement written twice, the second time in another layout of the property's list (whitespace, inner spaces, explicit
+    # [0], a line break inside parentheses), is the same statement twice: the script must still be what it is under one layout
+    fails = []
+    if rec['stmts'] and not rec.get('verbat'):
+        for lay in [l_ for l_ in layouts if l_ not in ('canon', 'crlf', 'comments', 'fullparens')]:
+            twice = R.render_program(rec['stmts'], names, 'canon') + '\n' + R.render_program(rec['stmts'][:1], names, lay, seed)
+            n += 1
+            try:
+                syms2 = parse(twice)
+            except (ParserError, SymbolError, IndentationError) as e:
+                fails.append(Mis(f'c14-repeated-statement-rejected:{lay}', text=twice, error=f'{type(e).__name__}: {str(e)[:200]}'))
+                continue
+            if sym_sig(syms2) != base_sig or {s_.name: code_ast(s_.code) for s_ in syms2 if s_.code is not None and s_.type == Type.ENDOGENOUS} != base_code:
+                fails.append(Mis(f'c14-repeated-statement-changes-symbols:{lay}', text=twice, got=sym_sig(syms2), want=base_sig))
     # reordering statements only reorders symbols
     n_items = len(rec['stmts']) + len(rec.get('verbat', []))
     if n_items > 1:
@@ -643,6 +688,10 @@ def check_c14(rec, names, symbols, layouts, seed):
         if again[sym.name].equation != sym.equation or again[sym.name].code != sym.code:
             raise Mis('c14-normal-form-not-a-fixed-point', equation=sym.equation, again=again[sym.name].equation,
                       code=sym.code, code_again=again[sym.name].code)
+    if fails:       # reported last, so that the clauses above are evaluated on every program
+        fails[0].more = fails[1:]
+        fails[0].done = n
+        raise fails[0]
     return n
 
 
@@ -722,6 +771,28 @@ def check_c15(rec, names, symbols, seed):
         first_eq = next(s_.code for s_ in symbols if s_.name == want_calls[0])
         if not (0 <= text.find('_verbatim_first_ = 1') < text.find(first_eq.splitlines()[0])):
             raise Mis('c15-verbatim-symbol-not-in-symbol-order')
+    def blank_first(sym):
+        calls.append(sym.name)
+        return '' if len(calls) == 1 else sym.code
+
+    def note_only(sym):
+        calls.append(sym.name)
+        return f'# {sym.name}: switched off'
+
+    for conv in (blank_first, note_only):     # a block may be empty or a mere comment: the method still compiles around it
+        calls.clear()
+        try:
+            text = fsic.build_model_definition(symbols, converter=conv)
+            calls.clear()
+            Mx = fsic.build_model(symbols, converter=conv)
+        except Exception as e:
+            raise Mis('c15-converter-output-rejected', converter=conv.__name__, error=f'{type(e).__name__}: {str(e)[:200]}')
+        n += 1
+        if calls != want_calls:
+            raise Mis('c15-converter-calls', converter=conv.__name__, got=list(calls), want=want_calls)
+        for attr in ('ENDOGENOUS', 'EXOGENOUS', 'PARAMETERS', 'ERRORS', 'NAMES', 'CHECK', 'LAGS', 'LEADS'):
+            if getattr(Mx, attr) != getattr(fsic.build_model(symbols), attr):
+                raise Mis('c15-class-attribute-differs', variant='converter=' + conv.__name__, attr=attr)
     for conv in (identity, wrapping):
         calls.clear()
         text = fsic.build_model_definition(symbols, converter=conv)
@@ -828,11 +899,13 @@ def main():
             out['nontrivial'] += 1
         try:
             out['n'] += process(rec, payload, out)
-        except Mis as m:
-            c = out['keys'].get(m.key, 0)
-            out['keys'][m.key] = c + 1
-            if c < 2:
-                out['mismatches'].append({'key': m.key, 'record': rec, 'detail': m.detail})
+        except Mis as m0:
+            out['n'] += getattr(m0, 'done', 0)
+            for m in [m0] + list(m0.more):
+                c = out['keys'].get(m.key, 0)
+                out['keys'][m.key] = c + 1
+                if c < 2:
+                    out['mismatches'].append({'key': m.key, 'record': rec, 'detail': dict(m0.detail, **m.detail)})
     print(json.dumps(out, default=str))
 
 
